@@ -1372,7 +1372,9 @@ def check_stack_field_release(chk, prog, unit, push_fn="spifconf_register_fstate
                 if own.release_kind(c) != "free" or not c["ch"][1:]:
                     continue
                 a = X.strip(c["ch"][1])
-                if a is not None and a.get("k") == "member" and a.get("n") == fld and any(glob_ref(y, table) is not None for y in walk(a)):
+                eo_ = entry_of(f, a) if a is not None and a.get("k") == "member" else None      # also through a slot pointer
+                if a is not None and a.get("k") == "member" and a.get("n") == fld and (
+                        any(glob_ref(y, table) is not None for y in walk(a)) or (eo_ is not None and glob_ref(eo_[0], table) is not None)):
                     if any(c["i"] < p_["i"] for p_ in pops):
                         released = True
                         where = f
